@@ -76,6 +76,7 @@ MD_TEMPLATES = {
     "X": ("", 2),       # two letters: expectation / prose
     "R": ("[7]", 0),    # exit code
     "r": ("[0]", 0),    # the exit code 0 written out
+    "n": ("[99999999999]", 0),   # a bracketed number that is no exit code (beyond i32): an ordinary line
     "L": ("````s", 0),  # scrut fence of four backticks (nested shorter fences are content)
     "K": ("````", 0),   # bare fence of four backticks
     "I": ("  ```", 0),  # an indented backtick run: never a fence
@@ -431,6 +432,11 @@ def h_md_parse(max_len):
         if s_ not in seen:
             seqs.append(s_)
             seen.add(s_)
+    # a bracketed number beyond i32 is a line like any other; the exit code 0 written out
+    for s_ in md_sequences(max_len, "FCXRnr", need="F"):
+        if s_ not in seen and ("n" in s_ or "r" in s_):
+            seqs.append(s_)
+            seen.add(s_)
     inputs = [("doc=%s" % (s or "(empty)"), mk_md_setup(s)) for s in seqs]
     # the same parse for CR LF line endings and for a document cut off after its last line (no final newline)
     for s_ in md_sequences(max_len - 1, "PBFCGXE"):
@@ -490,6 +496,7 @@ CRAM_TEMPLATES = {
     "e": ("  ", 0),       # the indentation alone: an expectation for an empty output line
     "f": ("    ", 0),     # the indentation and two blanks: an expectation of two blanks
     "s": (" ", 0),        # one blank: unindented text
+    "n": ("  [99999999999]", 0),   # a bracketed number that is no exit code (beyond i32): an expectation
 }
 ODD_TITLES = "AZONs"
 
@@ -680,6 +687,10 @@ def h_cram_parse(max_len, orphan=False):
         # whitespace-only lines: expectations when indented, unindented text otherwise
         for s_ in cram_sequences(min(max_len, 4), "TBCXefs"):
             if s_ not in seen and any(c in s_ for c in "efs") and cram_reference(s_) != "error":
+                seqs.append(s_)
+                seen.add(s_)
+        for s_ in cram_sequences(min(max_len, 4), "TCXRn"):
+            if s_ not in seen and "n" in s_ and cram_reference(s_) != "error":
                 seqs.append(s_)
                 seen.add(s_)
     inputs = [("doc=%s" % (s or "(empty)"), mk_cram_setup(s)) for s in seqs]
